@@ -25,7 +25,10 @@ again with an oracle that is independent of Lean, of the translated formulas and
   * every value against the closed-form reference at the content the array had AT CALL TIME; a repeat of an earlier
     evaluation through the same buffer must reproduce the first result bit for bit;
   * every result is KEPT (not copied) and compared again at the end of the session (returned-array aliasing);
-  * every container the caller handed in (y, spread, weights, predictions) is compared with its original content at the end;
+  * every container the caller handed in (y, spread, weights, predictions) is compared with its original content: a write into
+    one of them is a side effect and is TAGGED (`input-modified:<what>`), never a violation by itself - the property is about
+    values.  Its consequences are judged: a buffer whose intended content did not change is passed again WITHOUT being refilled,
+    and nothing the object may have damaged is repaired, so a later wrong value is the violation;
   * forms: y as float / int ndarray, list / tuple of floats or ints, (n,p) matrix or nested list; predictions as (n,), (n,1),
     (1,n), (n,p), contiguous or strided, float or (integer-valued) int dtype; spread as Python float / int, numpy float64,
     (n,), (n,1), (n,p), int-dtype array (and, tagged but only judged when accepted: numpy int64 / float32 scalars, 0-d arrays,
@@ -60,7 +63,7 @@ RULE = ("random loss objects: class in {Square, Normal, Poisson, Gamma, NegBinom
         "non-trivial when all three methods returned and the residual is non-zero in some observation.  Session cases (kind=session): "
         "one object (+ optionally a sibling of the same class with other data), 8-16 operations drawn from {loss, diff_loss, diff2Loss} x "
         "apply_weighting x 2-3 prediction vectors x {fresh array, one buffer object refilled in place, new view of one persistent solution "
-        "matrix}, always containing m(A), m(B), m(A) through the same buffer for some method m, optionally deepcopy of the object and a new "
+        "matrix}, always containing m(A), m(A), m(B), m(A) through the same buffer (refilled only when the content changes) for some method m, optionally deepcopy of the object and a new "
         "object on the caller's refilled y array; y / prediction / spread / weight containers and dtypes varied (see module docstring).  A "
         "session is non-trivial when every operation returned and some buffer was re-used with changed content")
 ASSUMPTIONS = ["scipy.stats log-densities are the reference densities (executable reference, also compared per case with the mpmath closed forms)",
@@ -307,11 +310,11 @@ def run_case(case):
                              "signature": "%s.diff2Loss:value" % cls, "detail": json.dumps(case)})
         if viol:
             break
-    # the arrays handed in are the caller's: no method may have written into them (sessions check this over longer histories)
+    # the arrays handed in are the caller's.  Writing into them is a side effect, not a wrong value: it is TAGGED here; what it
+    # does to later values is judged above (second apply_weighting pass on the same object) and in the session cases
     for name, (arr, snap) in given.items():
         if not (arr.shape == snap.shape and np.array_equal(arr, snap)):
-            viol.append({"what": "%s: the %s array passed to the constructor changed during loss / diff_loss / diff2Loss: %s -> %s" % (cls, name, snap.tolist(), arr.tolist()),
-                         "signature": "%s:mutates-%s" % (cls, "y" if name == "y" else "weights" if name == "weights" else "spread"), "detail": json.dumps(case)})
+            tags.append("input-modified:%s" % ("y" if name == "y" else "weights" if name == "weights" else "spread"))
     return {"nontrivial": bool(got_all and resid_nonzero), "mismatches": mism, "violations": viol, "tags": tags,
             "sample": {"cls": cls, "y": case["y"], "yhat": case["yhat"], "layout": case["layout"], "spread": case["spread"], "weights": case["weights"]}}
 
@@ -403,7 +406,7 @@ def _gen_session(r, force=None):
     # the core history: m(A), m(B), m(A) through the same buffer object / the same persistent memory
     m, via, aw = r.choice(METHODS), r.choice(["buffer", "view"]), ((r.random() < 0.6) if has_w else True)
     a, b = r.sample(range(nyh), 2)
-    core = [{"obj": 0, "meth": m, "aw": aw, "yhat": i, "via": via} for i in (a, b, a)]
+    core = [{"obj": 0, "meth": m, "aw": aw, "yhat": i, "via": via} for i in (a, a, b, a)]        # a twice: passed again as it is, not refilled
     if r.random() < 0.35:      # cost, gradient, curvature, cost while the solver's buffer moves on
         core += [{"obj": 0, "meth": mm, "aw": aw, "yhat": i, "via": via} for mm, i in zip(("loss", "diff_loss", "diff2Loss", "loss"), (a, b, a, b))]
     if has_w and r.random() < 0.6:     # same buffer, same content, the other weighting
@@ -615,6 +618,10 @@ def _run_session(case):
             L["keep"]["y"] = copy.deepcopy(L["ycont"])
             L["yv"] = np.array(newy, float)
             L["gen"] += 1
+            if any(not _same(val, L["keep"]["kw"][name]) for name, val in L["kw"].items()):
+                tags.append("rebuild-skipped:inputs-modified-earlier")      # the spread / weight containers are no longer what the caller made: not valid input any more
+                all_returned = False
+                break
             try:
                 L["obj"] = ctor(L["ycont"], **L["kw"])                     # ... and builds a new kernel object on it
             except Exception as exc:
@@ -632,14 +639,16 @@ def _run_session(case):
         elif via == "buffer":
             if buffer_content["buffer"] is not None and buffer_content["buffer"] != op["yhat"]:
                 reused_changed = True
-            buf[...] = shaped
+            if buffer_content["buffer"] != op["yhat"]:
+                buf[...] = shaped          # refilled in place only when the solver has moved on; otherwise the caller passes it again as it is
             buffer_content["buffer"] = op["yhat"]
             arg = buf
         else:
             if buffer_content["view"] is not None and buffer_content["view"] != op["yhat"]:
                 reused_changed = True
-            v = the_view(); v[...] = shaped
-            sol_expected[...] = sol
+            if buffer_content["view"] != op["yhat"]:
+                v = the_view(); v[...] = shaped
+                sol_expected[...] = sol
             buffer_content["view"] = op["yhat"]
             arg = the_view()                                               # a NEW view object over the same memory, as sol[:, i] is
         label = "%s.%s(%s, apply_weighting=%s) [operation %d, prediction set %d via %s]" % (cls, meth, layout, aw, idx, op["yhat"], via)
@@ -692,7 +701,8 @@ def _run_session(case):
                               % (label, np.asarray(res).tolist(), first_seen[key][0], np.asarray(first_seen[key][1]).tolist()))
             else:
                 first_seen[key] = (idx, copy.deepcopy(res))
-        # ---- the prediction array is the caller's
+        # ---- the prediction array is the caller's.  A write into it is a side effect (TAG); its consequences are judged by the values
+        #      of the later calls that receive the same, not refilled, array
         if via == "fresh":
             ok = _same(fresh_kept[-1][0], fresh_kept[-1][1])
         elif via == "buffer":
@@ -700,9 +710,9 @@ def _run_session(case):
         else:
             ok = _same(sol, sol_expected)
         if not ok:
-            violation("%s.%s:session:mutates-prediction" % (cls, meth), "%s wrote into the prediction array it was given" % label)
-            if via == "buffer": buf[...] = shaped
-            if via == "view": sol[...] = sol_expected
+            tags.append("input-modified:prediction:%s" % meth)
+            if via == "view":
+                sol_expected[...] = sol
         if scribbled and scribbled[-1][0] is res:
             res[...] = -12345.0         # a returned array is the caller's: what the caller does to it must not reach the object (checked by the later values)
     # ------------------------------------------------------------------ afterwards
@@ -711,15 +721,11 @@ def _run_session(case):
             m_ = label.split("(")[0]
             violation("%s:session:kept-result-changed" % m_, "the result of %s was %s when returned and is %s after later calls (returned array aliases internal state)"
                       % (label, np.asarray(snap).tolist(), np.asarray(res).tolist()))
-    for arr, snap in fresh_kept:
-        if not _same(arr, snap):
-            violation("%s:session:mutates-prediction" % cls, "a prediction array changed after the call it was passed to: %s -> %s" % (snap.tolist(), arr.tolist()))
     for k, L in enumerate(live):
         if not _same(L["ycont"], L["keep"]["y"]):
-            violation("%s:session:mutates-y" % cls, "the observations passed to object %d changed: %r -> %r" % (k, L["keep"]["y"], L["ycont"]))
+            tags.append("input-modified:y")
         for name, val in L["kw"].items():
             if not _same(val, L["keep"]["kw"][name]):
-                violation("%s:session:mutates-%s" % (cls, "weights" if name == "weights" else "spread"),
-                          "the %s container passed to object %d changed: %r -> %r" % (name, k, np.asarray(L["keep"]["kw"][name]).tolist(), np.asarray(val).tolist()))
+                tags.append("input-modified:%s" % ("weights" if name == "weights" else "spread"))
     return {"nontrivial": bool(all_returned and reused_changed and not exotic), "mismatches": mism, "violations": viol, "tags": tags,
             "sample": {"kind": "session", "cls": cls, "layout": layout, "ops": len(case["ops"]), "objects": len(live)}}
